@@ -487,8 +487,9 @@ def check(run, plugin, args):
     cov.update({k: v for k, v in run.extra.items() if k != 'exhaustive'})
     evidence = {'property_id': prop, 'tier': tier, 'seed': run.seed, 'level': 'proof', 'coverage': cov,
                 'assumptions': list(plugin.ASSUMPTIONS), 'wall_s': wall, 'violations': violations}
-    os.makedirs(os.path.join(VERIF, 'evidence'), exist_ok=True)
-    with open(os.path.join(VERIF, 'evidence', f'{prop}.json'), 'w', encoding='utf-8') as fobj:
+    evdir = os.environ.get('VERIF_EVIDENCE_DIR') or os.path.join(VERIF, 'evidence')
+    os.makedirs(evdir, exist_ok=True)
+    with open(os.path.join(evdir, f'{prop}.json'), 'w', encoding='utf-8') as fobj:
         json.dump(evidence, fobj, indent=1, sort_keys=True, default=repr)
     for line in lines:
         print(line)
